@@ -78,7 +78,10 @@ pub trait TypedWorld {
     fn observe(&self, a: usize) -> Obs;
     fn intact(&self, a: usize, id: u8) -> bool;
     fn ptr_eq(&self, a: usize, b: usize) -> bool;
+    /// The library call only: an Ok value is parked inside the world (at `unwrapped_addr`) until `drop_unwrapped`
     fn try_unwrap(&mut self, a: usize, id: u8) -> Unwrapped;
+    fn unwrapped_addr(&self) -> usize;
+    fn drop_unwrapped(&mut self);
     fn downgrade(&mut self, a: usize, w: usize);
     fn upgrade(&mut self, w: usize, b: usize) -> bool;
     fn drop_weak(&mut self, w: usize);
@@ -89,6 +92,7 @@ pub trait TypedWorld {
 }
 
 pub struct Typed<P: MiniPayload> {
+    unwrapped: Option<P>,
     vars: [Option<Cc<P>>; MV],
     #[cfg(feature = "weak")]
     wvars: [Option<Weak<P>>; MW],
@@ -97,6 +101,7 @@ pub struct Typed<P: MiniPayload> {
 impl<P: MiniPayload> Typed<P> {
     pub fn new() -> Self {
         Typed {
+            unwrapped: None,
             vars: Default::default(),
             #[cfg(feature = "weak")]
             wvars: Default::default(),
@@ -163,9 +168,9 @@ impl<P: MiniPayload> TypedWorld for Typed<P> {
         let elem = &*cc as *const P as usize;
         match cc.try_unwrap() {
             Ok(v) => {
-                let r = Unwrapped::Ok { intact: v.intact(id), elem_addr_differs: &v as *const P as usize != elem };
-                drop(v);
-                r
+                let intact = v.intact(id);
+                self.unwrapped = Some(v);
+                Unwrapped::Ok { intact, elem_addr_differs: self.unwrapped_addr() != elem }
             },
             Err(back) => {
                 let same = hk::box_addr(&back) == addr;
@@ -173,6 +178,19 @@ impl<P: MiniPayload> TypedWorld for Typed<P> {
                 Unwrapped::Err { same_ptr: same }
             },
         }
+    }
+    fn unwrapped_addr(&self) -> usize {
+        match self.unwrapped.as_ref() {
+            Some(v) => v as *const P as usize,
+            None => 0,
+        }
+    }
+    fn drop_unwrapped(&mut self) {
+        // dropped in place: the destructor must see the address announced by unwrapped_addr()
+        if let Some(v) = self.unwrapped.as_mut() {
+            unsafe { std::ptr::drop_in_place(v as *mut P) };
+        }
+        unsafe { std::ptr::write(&mut self.unwrapped, None) };
     }
     #[cfg(feature = "weak")]
     fn downgrade(&mut self, a: usize, w: usize) {
@@ -233,6 +251,7 @@ impl<P: MiniPayload> TypedWorld for Typed<P> {
         Err(())
     }
     fn forget_all(&mut self) {
+        std::mem::forget(self.unwrapped.take());
         for v in self.vars.iter_mut() {
             std::mem::forget(v.take());
         }
@@ -450,23 +469,15 @@ pub fn run(w: &mut dyn TypedWorld, cfg: &MiniCfg, h: &[MOp], stats: Option<&mut 
                             if !intact {
                                 vs.push(Violation { prop: "C13", pred: "P-unwrap", msg: "try_unwrap returned a value whose bytes changed".to_string() });
                             }
-                            // the harness dropped the moved-out value: exactly one drop event, at a different address
+                            // no user callback may run during the call itself
+                            let during = EVENTS.with(|e| e.borrow().len()) - ev_before;
+                            if during != 0 {
+                                vs.push(Violation { prop: "C13", pred: "P-unwrap", msg: format!("try_unwrap ran {} finalizer/destructor call(s)", during) });
+                            }
+                            // the value now belongs to the harness, parked at a known address; dropping it releases its link
                             m.objs[id as usize].moved_out = true;
-                            let evs: Vec<(usize, u8)> = EVENTS.with(|e| e.borrow()[ev_before..].to_vec());
-                            let drops_here = evs.iter().filter(|e| e.1 == 0).count();
-                            let at_box = evs.iter().filter(|e| e.1 == 0 && e.0 == m.objs[id as usize].elem_addr).count();
-                            if evs.iter().any(|e| e.1 == 1) {
-                                vs.push(Violation { prop: "C13", pred: "P-unwrap", msg: "try_unwrap ran the finalizer".to_string() });
-                            }
-                            if at_box != 0 && psize != 0 {
-                                vs.push(Violation { prop: "C13", pred: "P-unwrap", msg: "try_unwrap dropped the value in place".to_string() });
-                            }
-                            if drops_here < 1 {
-                                vs.push(Violation { prop: "MACHINERY", pred: "mini", msg: "moved-out value was not dropped by the harness".to_string() });
-                            }
-                            // its link (if any) was released by the harness-side drop
-                            m.objs[id as usize].drops = 1;
-                            EVENTS.with(|e| e.borrow_mut().truncate(ev_before));
+                            m.objs[id as usize].elem_addr = w.unwrapped_addr();
+                            w.drop_unwrapped();
                             expect_gone = Some(id);
                         },
                         Unwrapped::Err { same_ptr } => {
@@ -541,6 +552,15 @@ pub fn run(w: &mut dyn TypedWorld, cfg: &MiniCfg, h: &[MOp], stats: Option<&mut 
             let evs: Vec<(usize, u8)> = EVENTS.with(|e| std::mem::take(&mut *e.borrow_mut()));
             let live_after = m.live();
             for (addr, kind) in evs {
+                if let Some(i) = m.objs.iter().position(|o| o.moved_out && o.drops == 0 && o.elem_addr == addr) {
+                    // the moved-out value dropped by its new owner (the harness)
+                    if kind == 1 {
+                        vs.push(Violation { prop: "C13", pred: "P-unwrap", msg: format!("moved-out value of object #{} finalized", i) });
+                    } else {
+                        m.objs[i].drops = 1;
+                    }
+                    continue;
+                }
                 let Some(i) = m.objs.iter().position(|o| o.elem_addr == addr && !o.moved_out && !o.cyclic_failed) else {
                     vs.push(Violation { prop: "C14", pred: "P-cyclic", msg: format!("{} of a value at {:#x} which is not a constructed object", if kind == 0 { "drop" } else { "finalize" }, addr) });
                     continue;
@@ -596,7 +616,7 @@ pub fn run(w: &mut dyn TypedWorld, cfg: &MiniCfg, h: &[MOp], stats: Option<&mut 
                 if !gone && live & (1 << i) == 0 && m.count(i as u8) == 0 {
                     vs.push(Violation { prop: "C04", pred: "P-count", msg: format!("object #{} has no owner left but was not dropped", i) });
                 }
-                if let Some(b) = blk {
+                if let (Some(b), false) = (blk, o.moved_out) {
                     if b.align < palign || o.elem_addr % palign.max(1) != 0 {
                         vs.push(Violation { prop: "C20", pred: "P-ptr", msg: format!("payload of object #{} at {:#x} is not aligned to {} (box align {})", i, o.elem_addr, palign, b.align) });
                     }
